@@ -273,16 +273,7 @@ theorem deliver_inv (g : GoodChain c ch top) (dc : DistinctCommitments ch) (hi :
             · omega
         · rw [e] at hsafe ⊢
           obtain ⟨a1, a2⟩ := syncAfter_live g (cacheD_safe g hs hb) (cacheD_live hl k b.data)
-          refine ⟨hsafe, ?_, a2⟩
-          refine ⟨a1.hdrDel, a1.datDel, a1.datEmp, a1.seenHs, ?_, a1.hdrEmp⟩
-          intro x hx
-          have hx' : x = b.data.daCommitment ∨ x ∈ (syncAfter (cacheD n k b.data)).1.seenD := by simpa [markD] using hx
-          rcases hx' with rfl | hx'
-          · refine ⟨k, b, hb, hem, rfl, ?_⟩
-            by_cases hle : k ≤ (syncAfter (cacheD n k b.data)).1.store.height
-            · exact Or.inl hle
-            · exact Or.inr (a1.datDel k b hb (by omega) hem (by simp))
-          · exact a1.seenDs x hx'
+          exact ⟨hsafe, a1, a2⟩
 
 /-- **Convergence**: a node satisfying the invariant has applied every block up to any height `h` such that
 both parts of all blocks in `(h0, h]` were delivered. -/
